@@ -102,3 +102,15 @@ Proof.
   repeat split; assumption.
 Qed.
 Print Assumptions C18_source_write_delete_notify_once.
+
+From Cache Require Import TieFailover.
+
+(* doBuild emits cache_build once per builder invocation (deferred: last), cache_failed once per failing one;
+   refreshStale emits cache_refreshed once per stale re-store — only with a tracker attached *)
+Theorem C18_source_failover_metrics : forall x built_ok write_ok errwrite_ok,
+  (run_do_build fn_Failover_doBuild x built_ok write_ok errwrite_ok = Some (do_build_spec x built_ok write_ok errwrite_ok) /\
+   run_do_build fn_FailoverOf_doBuild x built_ok write_ok errwrite_ok = Some (do_build_spec x built_ok write_ok errwrite_ok)) /\
+  (run_refresh fn_Failover_refreshStale x write_ok = Some (refresh_spec x write_ok) /\
+   run_refresh fn_FailoverOf_refreshStale x write_ok = Some (refresh_spec x write_ok)).
+Proof. intros; split; [exact (tie_do_build _ _ _ _)|exact (tie_refresh_stale _ _)]. Qed.
+Print Assumptions C18_source_failover_metrics.
